@@ -407,5 +407,31 @@ def rule_factor_icky(P):
     else:
         ok = W.cnorm(ntw.node, seed[0].target, seed[0]) == "α[0][self.cfg.S]"
         r.add(ntw, seed[0], ok, "" if ok else "the outside pass must be seeded with α[0][S] = one")
-    r.min_instances = 5
+    # base case of the chart: one column whose cell [0][S] holds the nullary weight, addressed like every reader addresses cells
+    cc = P.func("parse/cky.py::IncrementalCKY._compute_chart")
+    r.looked_at(cc)
+    base = [n for n in walk_live(cc.node) if isinstance(n, ast.Assign) and isinstance(n.targets[0], ast.Subscript)
+            and any(re.match(r"^0 == len\(\w+\)$|^not \w+$", t) for t in W.cfacts(cc.node, n))]
+    if len(base) != 1:
+        r.undecided(cc, cc.node, f"_compute_chart: {len(base)} stores under the empty-prefix test", construct="_compute_chart: base case")
+    else:
+        st = base[0]
+        chain = []
+        e = st.targets[0]
+        while isinstance(e, ast.Subscript):
+            chain.append(e.slice)
+            e = e.value
+        chain.reverse()
+        keys = [norm(x) for x in chain]
+        if any(isinstance(x, ast.Tuple) for x in chain) or len(chain) != 3:
+            r.add(cc, st, False, f"the empty-prefix cell is stored as `{norm(st.targets[0])}` (keys {keys}); every reader addresses cells as chart[k][i][X] "
+                  f"(column, start, symbol): the nullary weight of the start symbol is never found, so the empty string weighs zero",
+                  construct="_compute_chart: base case")
+        else:
+            ok = keys == ["0", "0", "self.cfg.S"] and norm(st.value) == "self.nullary"
+            if ok:
+                r.add(cc, st, True, slots=dict(cell=norm(st.targets[0]), value=norm(st.value)), construct="_compute_chart: base case")
+            else:
+                r.add(cc, st, False, f"the empty-prefix chart must hold chart[0][0][S] = the nullary weight; got `{first_line(st)}`", construct="_compute_chart: base case")
+    r.min_instances = 6
     return r
